@@ -51,14 +51,16 @@ const UNFORWARDABLE: [&str; 14] = [
 
 /// failure classes with a fixed witness in `corpus()` (each is a confirmed defect of the
 /// unchanged code, see tools/props/C08.json); generated cases only count them
-const KNOWN_CLASSES: [&str; 11] = [
+const KNOWN_CLASSES: [&str; 13] = [
+    "route-not-served:tcp-frontend-overwritten",
+    "route-not-served:backends-share-address",
+    "route-served-but-absent:backends-share-address",
     "no-final-answer:CountRequests",
     "no-final-answer-before-stop:",
     "no-final-answer:SoftStop:listener-removed-while-active",
     "no-final-answer:SoftStop:remove-of-unknown-listener",
     "route-not-served:listener-reactivated",
     "route-not-served:command-outcome-differs",
-    "route-served-but-absent:command-outcome-differs",
     "listener-not-accepting:command-outcome-differs",
     "route-not-served:listener-removed-and-readded",
     "route-not-served:listener-token-reused",
@@ -157,6 +159,11 @@ struct Ctx {
     failed_front: BTreeSet<(bool, u64, u64)>,
     failed_l4: BTreeSet<u64>,
     failed_listener: BTreeSet<(String, u64)>,
+    /// address slots / clusters touched by a command the main state REFUSED and the worker
+    /// nevertheless applied: a main process never forwards those, so the view clause of the
+    /// property says nothing about them and the behaviour probes leave them alone
+    unforwardable_slots: BTreeSet<u64>,
+    unforwardable_clusters: BTreeSet<u64>,
     /// causes of a SoftStop that never completes, seen in this case
     rml_unknown: bool,
     rml_live: bool,
@@ -191,6 +198,8 @@ impl Ctx {
             failed_front: BTreeSet::new(),
             failed_l4: BTreeSet::new(),
             failed_listener: BTreeSet::new(),
+            unforwardable_slots: BTreeSet::new(),
+            unforwardable_clusters: BTreeSet::new(),
             rml_unknown: false,
             rml_live: false,
             token_reused: false,
@@ -591,8 +600,21 @@ impl Ctx {
 
     /// bookkeeping the oracles use to name the cause of a divergence
     fn note(&mut self, ws: &[&str], final_ok: Option<bool>, accepted: bool) {
-        let differs = final_ok.is_some() && final_ok != Some(accepted);
         let n = |i: usize| ws.get(i).and_then(|s| s.parse::<u64>().ok()).unwrap_or(0);
+        // FAILURE from the worker although the main state accepted (and forwarded) the command
+        let differs = final_ok == Some(false) && accepted;
+        // OK from the worker for a command the main state refuses
+        if final_ok == Some(true) && !accepted {
+            match ws[0] {
+                "addl" | "updl" | "act" | "deact" | "rml" | "addf" | "rmf" | "addl4" | "rml4" => {
+                    self.unforwardable_slots.insert(n(2));
+                }
+                "addcluster" | "rmcluster" | "addbackend" | "rmbackend" | "sethc" | "rmhc" => {
+                    self.unforwardable_clusters.insert(n(1));
+                }
+                _ => {}
+            }
+        }
         match ws[0] {
             "addl" => {
                 if differs {
@@ -737,6 +759,11 @@ fn check_view_and_behaviour(ctx: &mut Ctx, keys_seen: &BTreeSet<(u64, u64)>) {
             _ => None,
         });
         let ours = ctx.master.hash_state();
+        // the thorough tier's traffic route lives outside the op universe
+        let theirs = theirs.map(|mut m| {
+            m.remove("ctraffic");
+            m
+        });
         if theirs.as_ref() != Some(&ours) {
             ctx.oracle.push(("view-diverges".into(), format!("cluster hashes: worker {theirs:?} vs main {ours:?}")));
         }
@@ -756,16 +783,21 @@ fn check_view_and_behaviour(ctx: &mut Ctx, keys_seen: &BTreeSet<(u64, u64)>) {
         let t = ctx.master.tcp_listeners.get(&addr).map(|l| l.active).unwrap_or(false);
         let view_active = active(h) || active(s) || active(t);
         let accepts = RawConn::connect(addr).map(|c| c.close()).is_ok();
+        let judged = !ctx.unforwardable_slots.contains(&slot);
         let any_failed = ["h", "s", "t"].iter().any(|ty| ctx.failed_listener.contains(&(ty.to_string(), slot)));
-        if view_active && !accepts {
+        if judged && view_active && !accepts {
             let cause = if any_failed { "command-outcome-differs" } else if ctx.dup_listener { "duplicate-listener" } else if ctx.token_reused { "listener-token-reused" } else { "other" };
             ctx.oracle.push((format!("listener-not-accepting:{cause}"), format!("slot {slot}: the view says active, connect is refused")));
         }
-        if !view_active && accepts {
+        if judged && !view_active && accepts {
             let cause = if ctx.dup_listener { "duplicate-listener" } else { "other" };
             ctx.oracle.push((format!("listener-accepting-but-inactive:{cause}"), format!("slot {slot}: no active listener in the view, connect succeeds")));
         }
         if !accepts || (h as u8 + s as u8 + t as u8) != 1 {
+            continue;
+        }
+        if ctx.unforwardable_slots.contains(&slot) {
+            ctx.tags.push("behaviour-skipped:unforwardable-command".into());
             continue;
         }
         // ---- routing behaviour
@@ -789,6 +821,9 @@ fn check_view_and_behaviour(ctx: &mut Ctx, keys_seen: &BTreeSet<(u64, u64)>) {
                 let clusters: BTreeSet<String> = matching.iter().filter_map(|f| f.cluster_id.clone()).collect();
                 if clusters.len() > 1 {
                     continue; // precedence between overlapping rules is another property (C04)
+                }
+                if clusters.iter().any(|c| ctx.unforwardable_clusters.contains(&c.trim_start_matches('c').parse::<u64>().unwrap_or(99))) {
+                    continue;
                 }
                 marker_n += 1;
                 let marker = format!("probe{marker_n}x");
@@ -856,6 +891,9 @@ fn check_view_and_behaviour(ctx: &mut Ctx, keys_seen: &BTreeSet<(u64, u64)>) {
                 ctx.tags.push("behaviour-skipped:two-tcp-frontends".into());
                 continue;
             }
+            if clusters.iter().any(|c| ctx.unforwardable_clusters.contains(&c.trim_start_matches('c').parse::<u64>().unwrap_or(99))) {
+                continue;
+            }
             let expected: BTreeSet<usize> = clusters
                 .iter()
                 .next()
@@ -891,7 +929,7 @@ fn check_view_and_behaviour(ctx: &mut Ctx, keys_seen: &BTreeSet<(u64, u64)>) {
                     ));
                 }
                 (Some(i), _) => {
-                    let cause = if ctx.multi_l4 { "tcp-frontend-overwritten" } else if ctx.shared_backend_addr { "backends-share-address" } else { "other" };
+                    let cause = if ctx.dup_listener { "duplicate-listener" } else if ctx.multi_l4 { "tcp-frontend-overwritten" } else if ctx.shared_backend_addr { "backends-share-address" } else { "other" };
                     ctx.oracle.push((
                         format!("route-served-but-absent:{cause}"),
                         format!("tcp slot {slot}: the view allows backends {expected:?}, the connection reached backend {i}"),
@@ -971,8 +1009,10 @@ fn gen_case(rng: &mut Rng, thorough: bool) -> Vec<String> {
                     }
                 }
             } else {
-                if clean {
-                    continue; // deactivate -> activate kills a listener (known finding): not in clean cases
+                if clean || traffic {
+                    // deactivate -> activate kills a listener (known finding): not in clean cases;
+                    // with traffic the freed slab token may go to a client session (not modelled)
+                    continue;
                 }
                 ops.push(format!("deact {tys} {s}"));
                 if !bad_type {
@@ -991,7 +1031,7 @@ fn gen_case(rng: &mut Rng, thorough: bool) -> Vec<String> {
             if bad_type {
                 ops.push(format!("rml x {s}"));
             } else {
-                if sh.listeners.get(&(t, s)).map(|l| l.0).unwrap_or(false) && rng.chance(1, 2) {
+                if !traffic && sh.listeners.get(&(t, s)).map(|l| l.0).unwrap_or(false) && rng.chance(1, 2) {
                     ops.push(format!("deact {t} {s}"));
                 }
                 ops.push(format!("rml {t} {s}"));
@@ -1062,6 +1102,9 @@ fn gen_case(rng: &mut Rng, thorough: bool) -> Vec<String> {
             let have: Vec<_> = sh.fronts.iter().filter(|f| f.0 == p).cloned().collect();
             if !have.is_empty() && rng.chance(1, 4) {
                 let f = if clean || rng.chance(4, 5) { *rng.pick(&have) } else { (p, s, key, c) };
+                if tainted(&sh, f.0, f.1) {
+                    continue;
+                }
                 let fl = match key_parts(f.2).1 {
                     3 => "r",
                     4 => "e",
@@ -1089,6 +1132,9 @@ fn gen_case(rng: &mut Rng, thorough: bool) -> Vec<String> {
             let have: Vec<_> = sh.l4.iter().filter(|f| f.0 == p).cloned().collect();
             if !have.is_empty() && rng.chance(1, 3) {
                 let f = if clean || rng.chance(4, 5) { *rng.pick(&have) } else { (p, s, c) };
+                if tainted(&sh, f.0, f.1) {
+                    continue;
+                }
                 ops.push(format!("rml4 {} {} {}", f.0, f.1, f.2));
                 sh.l4.retain(|x| *x != f);
             } else {
@@ -1143,7 +1189,7 @@ fn gen_case(rng: &mut Rng, thorough: bool) -> Vec<String> {
             ]);
             ops.push(format!("plain {k} 1"));
         } else if r < 98 {
-            if !clean && rng.chance(1, 8) {
+            if !clean && !traffic && rng.chance(1, 8) {
                 ops.push("plain ReturnListenSockets 1".into());
                 for l in sh.listeners.values_mut() {
                     l.0 = false;
@@ -1334,6 +1380,17 @@ fn run_case_inner(ops: &[String]) -> ImplRun {
             _ => {}
         }
         // view and behaviour are judged before a stop verb ends the worker
+        if (is_stop || nowait) && traffic.is_some() {
+            if let Some((stop, h)) = traffic.take() {
+                stop.store(true, Ordering::SeqCst);
+                if let Ok((okc, bad)) = h.join() {
+                    run.tags.push(format!("traffic-requests:{}", if okc > 0 { "some" } else { "none" }));
+                    if bad > 0 {
+                        run.oracle.push(("traffic-disturbed".into(), format!("{bad} of {} requests on an untouched route failed while commands were applied", okc + bad)));
+                    }
+                }
+            }
+        }
         if is_stop && !checked && pending_nowait.is_empty() {
             if let Some((stop, h)) = traffic.take() {
                 stop.store(true, Ordering::SeqCst);
@@ -1475,7 +1532,7 @@ impl Area for WorkerArea {
         "worker"
     }
     fn rule(&self) -> String {
-        "command sequences for a real worker thread: listeners (http/https/tcp/udp; add, duplicate add, invalid config, update valid/invalid, activate, deactivate, remove, wrong proxy enum) on 4 address slots + 1 never-used slot, clusters (valid/invalid health check), backends (3 ids, two sharing an address), http/https frontends (2 hosts x prefix/regex/uncompilable regex/equals paths x any/POST, hsts, bad position), tcp/udp frontends, certificates (add/remove/replace, valid/invalid), health checks, every worker-level verb and query, every request kind the worker has no handler for, ReturnListenSockets, ending in nothing / SoftStop / HardStop / a request written right before HardStop; a third of the cases only contain commands a main process accepts in a sensible order; non-trivial = at least 8 commands and at least one FAILURE answer; distinct = distinct op sequence".into()
+        "command sequences for a real worker thread (fresh worker per case): listeners (http/https/tcp/udp; add, duplicate add, invalid config, update valid/invalid, activate, deactivate, remove, wrong proxy enum) on 4 address slots + 1 never-used slot, clusters (valid/invalid health check), backends (3 ids, two sharing an address), http/https frontends (2 hosts x prefix/regex/uncompilable regex/equals paths x any/POST, hsts, bad position), tcp/udp frontends, certificates (add/remove/replace, valid/invalid), health checks, every worker-level verb and query, every request kind the worker has no handler for (and request_type None), ReturnListenSockets, QueryClusterById for every cluster at the end, ending in nothing / SoftStop / HardStop / a request written right before HardStop; a third of the cases only contain commands a main process accepts, in a sensible order; thorough: a quarter of the cases run with a client hammering an untouched route. Per request: responses counted up to a Status sentinel; per case: worker view vs a master-side ConfigState (QueryClusterById x4, QueryClustersHashes), connect probes on every address, one HTTP request per frontend key used and one TCP connection per TCP listener against two mock backends. Failure classes demonstrated by a fixed witness of the corpus are counted, not re-reported, in generated cases. non-trivial = at least 8 commands and at least one FAILURE answer; distinct = distinct op sequence".into()
     }
     fn cases(&self, thorough: bool) -> u64 {
         if thorough {
@@ -1505,8 +1562,6 @@ impl Area for WorkerArea {
             v(&["new w", "addcluster 0 1", "addbackend 0 0 0", "addf h 0 0 0 -", "addl h 0 1", "act h 0", "qcluster 0"]),
             v(&["new w", "addl4 t 1 2", "addl t 1 1", "act t 1", "addbackend 2 1 1"]),
             v(&["new w", "addl h 0 0", "act h 0"]),
-            // ... and the reverse: the main state refuses a duplicate key, the proxy takes it with the other cluster
-            v(&["new w", "addcluster 0 1", "addcluster 2 1", "addbackend 2 1 1", "addf h 2 0 0 -", "addl h 2 1", "act h 2", "addf h 2 0 2 -"]),
             // F8: commands answered FAILURE stay in the view (no listener at the address: nothing to probe)
             v(&["new w", "addl h 0 1", "act h 0", "addcluster 0 1", "addbackend 0 0 0", "addf h 3 0 0 -", "addf h 0 30 0 r", "rmbackend 0 1 1", "qcluster 0"]),
             // deactivate then activate: the listener accepts connections and never serves them
@@ -1517,6 +1572,11 @@ impl Area for WorkerArea {
             // a token freed by DeactivateListener is handed to the next listener: same proxy -> FAILURE, other proxy -> shared token
             v(&["new w", "addl s 3 1", "act s 3", "deact s 3", "addl s 0 1", "act s 0"]),
             v(&["new w", "addl u 0 1", "act u 0", "deact u 0", "addl t 2 1", "act t 2", "act u 0", "addl4 t 2 0", "addbackend 0 0 0"]),
+            // two TCP frontends on one address (both accepted): the listener keeps the last cluster only, and
+            // removing that one leaves the listener without a cluster while the view still shows the first
+            v(&["new w", "addl t 1 1", "act t 1", "addbackend 0 0 0", "addbackend 1 1 1", "addl4 t 1 0", "addl4 t 1 1", "rml4 t 1 1"]),
+            // two backend ids on one address: RemoveBackend of one drops both in the worker (address-keyed)
+            v(&["new w", "addl t 0 1", "act t 0", "addl4 t 0 0", "addbackend 0 0 0", "addbackend 0 2 0", "rmbackend 0 2 0"]),
             // an EQUALS rule is deduplicated and removed like the others (F1 of C04 is repaired)
             v(&["new w", "addl h 0 1", "act h 0", "addcluster 0 1", "addbackend 0 0 0", "addf h 0 40 0 e", "addf h 0 40 0 e", "rmf h 0 40 0 e"]),
             // a clean configuration works end to end
